@@ -12,8 +12,13 @@ import gzip
 import struct
 
 
-def hdr(name, size, typ=b"0", visor=True, offset_data=0, text=0, fix=0, mode=0o644, mtime=0o14000000000):
+def hdr(name, size, typ=b"0", visor=True, offset_data=0, text=0, fix=0, mode=0o644, mtime=0o14000000000, prefix="", linkname=""):
+    """prefix: ustar prefix field (155 bytes at 345; the member is <prefix>/<name>); a visor header overlays its last bytes."""
     b = bytearray(512)
+    pb = prefix.encode()[:155]
+    b[345:345 + len(pb)] = pb
+    lb = linkname.encode()[:100]
+    b[157:157 + len(lb)] = lb
     nb = name.encode()[:100]
     b[0:len(nb)] = nb
     b[100:108] = b"%07o\0" % mode
